@@ -8,6 +8,7 @@ RULE = ("script verdicts (type tag, address) of the real eval_from_bytes vs the 
         "families (templates and their one-byte neighbourhoods, every push form in every slot, zero-length/truncated pushes, NOP insertion, m-of-n grid, "
         "256 leading opcodes) + seeded structure-directed bulk with 35% one-step mutations; a case is non-trivial when the script is non-empty and the model "
         "types it other than NotRecognised or it is a mutation/neighbour of a template; distinct = distinct (version, script) pairs")
+FORKCOINS = ["namecoin", "litecoin", "dogecoin", "myriadcoin", "unobtanium", "noteblockchain"]
 ASSUMPTIONS = ["every byte string is in the property's domain", "address comparison validates the Lean SHA-256/RIPEMD-160/Base58Check against the real ones on every address compared"]
 
 
@@ -22,11 +23,21 @@ def correspondence(ctx):
             return G.FORK if i % 3 == 0 else [G.FORK[i % 6]]
         return [G.FORK[i % 6], G.FORK[(i // 6 + 1) % 6]]
     S.run(ctx, cases, versions_of, project)
+    # the same verdicts where the property observes them: scripts as transaction outputs through read_block -> eval_script,
+    # incl. scripts longer than 10 000 bytes (boundary families in full, a sample of the bulk)
+    r = ctx.sub_rnd("out-path")
+    sub = [c for i, c in enumerate(cases) if len(c[1]) < 2000 and (i < 5000 or i % 7 == 0)][:ctx.n(3500, 80000)]
+    sub += list(S.long_scripts(r, ctx.thorough()))
+    S.run_via_outputs(ctx, sub, lambda fam, i: [FORKCOINS[i % 6]] + ([FORKCOINS[(i + 3) % 6]] if fam.startswith("long") else []))
 
 
 def replay(ctx, rep, corpus=None):
+    if rep.get("failing_input", rep).get("via") == "block":
+        return S.replay_via_outputs(ctx, rep)
     S.replay_one(ctx, rep, project)
 
 
 def shrink(ctx, d):
+    if d.get("via") == "block":
+        return d
     return S.shrink_script(ctx, d, project)
